@@ -24,7 +24,7 @@ func init() {
 			}
 			return 4
 		},
-		Cases:       func(r *obs.Run) int { return r.Share(r.Pick(20000, 160000)) },
+		Cases:       func(r *obs.Run) int { return r.Share(r.Pick(20000, 3000000)) },
 		Case:        c07Case,
 		MinDistinct: func(t string) int { return 3000 },
 		Floors: func(string) map[string]int64 {
